@@ -136,14 +136,17 @@ Proof. exact flush_cancels_only_unstarted_inv. Qed.
 
    As first stated (without the last hypothesis below) this is FALSE: a Tflush whose
    oldtag is its own tag (or two Tflush naming each other) finds a flush request
-   under oldtag, sees its reqWork bit set and leaves the answer to that request's
+   under oldtag, chains itself onto it and leaves the answer to that request's
    Respond, which never comes.  [flush_answered_once_counterexample] is such a run:
-   LArrive 1 (KFlush 1); LWStart 0; LF1 0; LF2 0; LF3 0; LWTail 0.
+   LArrive 1 (KFlush 1); LWStart 0; LF1 0; LWTail 0
+   (a target that is itself a Tflush is not touched: Srv.flush returns right after
+   chaining, so there is no LF2 / LF3 for this flusher).
    The corrected statement requires that the request found under oldtag is not
-   itself a flush request. *)
+   itself a flush request.  A Tflush naming another, not yet started Tflush no longer
+   suppresses the latter's Rflush: see [flush_of_flush_both_answered] below. *)
 Definition cex_cfg : cfg := mkCfgC 4 false.
 Definition cex_run : list label :=
-  [LArrive 1%N (KFlush 1%N); LWStart 0; LF1 0; LF2 0; LF3 0; LWTail 0].
+  [LArrive 1%N (KFlush 1%N); LWStart 0; LF1 0; LWTail 0].
 Definition cex_rq : rq :=
   mkRq 1%N (KFlush 1%N) false false false true (Some 0) None None (Some 1%N) WDone false false
        [1%N] (Some 0) None None.
@@ -180,6 +183,42 @@ Proof.
   eapply exactly_one_at_quiescence; eauto.
   eapply flush_has_frame; eauto. apply NoGroups_NG. exact NGr.
 Qed.
+
+(* A Tflush naming another Tflush that has not started yet does not cancel it (Srv.flush
+   returns right after chaining when the target is itself a Tflush): request 0 (tag 5) is
+   with the implementation; request 1 (tag 20) flushes tag 5, request 2 (tag 21) flushes
+   tag 20 and runs its F1 while request 1 is still only spawned.  Request 2 goes straight
+   to its tail, request 1 then runs normally; when the implementation answers request 0,
+   its Respond answers request 1, whose Respond answers request 2: all three replies are
+   on the wire, in that order. *)
+Definition ff_run_pre : list label :=
+  [LArrive 5%N KOp; LWStart 0; LOpCall 0;
+   LArrive 20%N (KFlush 5%N); LArrive 21%N (KFlush 20%N);
+   LWStart 2; LF1 2].
+Definition ff_run_post : list label :=
+  [LWTail 2;
+   LWStart 1; LF1 1; LF2 1; LF3 1; LWTail 1;
+   LAnswer 0 9%N; LOpReturn 0; LWTail 0;
+   LR 0; LR 0; LR 0; LR 0; LR 0; LR 0; LR 0; LR 0;
+   LR 1; LR 1; LR 1; LR 1; LR 1; LR 1; LR 1; LR 1;
+   LR 2; LR 2; LR 2; LR 2; LR 2; LR 2;
+   LSend; LSend; LSend].
+
+Example flush_of_flush_both_answered :
+  (* after the second flush's F1: the first flush has not started and is not marked flushed,
+     the second is chained on it and already past Process() *)
+  option_map (fun s => map (fun q => (q_pc q, q_flush q, q_flushreq q, q_target q)) (R s))
+             (run cex_cfg init ff_run_pre)
+  = Some [(WInOp, false, None, None); (WSpawned, false, Some 2, None); (WTail, false, None, Some 1)] /\
+  (* LF2 / LF3 are not enabled for it *)
+  option_map (fun s => (step cex_cfg s (LF2 2), step cex_cfg s (LF3 2))) (run cex_cfg init ff_run_pre)
+  = Some (None, None) /\
+  (* at the end every request has its reply on the wire *)
+  option_map wire (run cex_cfg init (ff_run_pre ++ ff_run_post))
+  = Some [(0, 5%N, Some 9%N); (1, 20%N, Some v_rflush); (2, 21%N, Some v_rflush)] /\
+  option_map (fun s => (on_wire s 1, on_wire s 2)) (run cex_cfg init (ff_run_pre ++ ff_run_post))
+  = Some (1, 1).
+Proof. repeat split; vm_compute; reflexivity. Qed.
 
 (* ========== C08 ========== *)
 
